@@ -14,8 +14,10 @@ def tstr(h, m):
     return "%02d:%02d" % (h, m)
 
 
-async def _commit_path(payload, sched_index, rounds, receive=None):
-    """Each round: SchedulesResponse -> EcoMAX -> Schedule edits -> commit -> queued SetScheduleRequest."""
+async def _commit_path(payload, sched_index, rounds, receive=None, defer=None):
+    """Each round: SchedulesResponse -> EcoMAX -> Schedule edits -> commit -> queued SetScheduleRequest.
+    defer[k]: the request committed in round k is still waiting in the write queue when the next response is handled (the
+    producer writes -- and only then serialises -- a request when it gets round to it); it is serialised afterwards."""
     from pyplumio.devices.ecomax import EcoMAX
     from pyplumio.frames.responses import SchedulesResponse
     from pyplumio.structures.network_info import NetworkInfo
@@ -23,12 +25,19 @@ async def _commit_path(payload, sched_index, rounds, receive=None):
     q = asyncio.Queue()
     dev = EcoMAX(q, network=NetworkInfo())
     frames = []
+    waiting = []
+
+    def transmit(fr):
+        frames.append([int(fr.frame_type), int(fr.recipient), list(bytes(fr.bytes)[8:-2])])
     for k, edits in enumerate(rounds):
         if receive is None or receive[k]:
             dev.handle_frame(SchedulesResponse(message=bytearray(payload)))
         for _ in range(4):
             await asyncio.gather(*[t for t in dev.tasks], return_exceptions=True)
             await asyncio.sleep(0)
+        for fr in waiting:
+            transmit(fr)
+        waiting = []
         name = SCHEDULES[sched_index]
         sched = dev.data["schedules"][name]
         days = list(sched)
@@ -37,8 +46,13 @@ async def _commit_path(payload, sched_index, rounds, receive=None):
         await sched.commit()
         while not q.empty():
             fr = q.get_nowait()
-            # the request is transmitted (serialised) before the next round, as the producer would do
-            frames.append([int(fr.frame_type), int(fr.recipient), list(bytes(fr.bytes)[8:-2])])
+            if defer and defer[k] and k + 1 < len(rounds):
+                waiting.append(fr)
+            else:
+                # the request is transmitted (serialised) before the next round, as the producer would do
+                transmit(fr)
+    for fr in waiting:
+        transmit(fr)
     return frames
 
 
@@ -47,7 +61,7 @@ class C18(Prop):
     prop_file = "Props/C18.v"
     rule = ("edits: all 48x48 half-hour aligned (start,end) pairs x 4 states on a random initial day (exhaustive), plus invalid states, "
             "malformed / out-of-range / unaligned times; codec: random 7x48 bitmaps x the 40 schedule kinds x switch/parameter values through "
-            "real SchedulesResponse -> EcoMAX -> Schedule edits -> commit() -> queued SetScheduleRequest.  Non-trivial = the edit changes a "
+            "real SchedulesResponse -> EcoMAX -> Schedule edits -> commit() -> queued SetScheduleRequest (serialised at once, or only after the next response has been handled).  Non-trivial = the edit changes a "
             "slot or a frame is committed; distinct by case content.")
     assumptions = ["time strings are parsed by datetime.strptime (CPython); the model takes (hour, minute)"]
 
@@ -104,7 +118,9 @@ class C18(Prop):
                 rounds.append(edits)
             # a later round either starts from a freshly received response or goes on editing the same Schedule object
             receive = [True] + [rng.random() < 0.5 for _ in rounds[1:]]
-            cases.append({"kind": "commit", "scheds": scheds, "target": target, "rounds": rounds, "receive": receive})
+            # a committed request may still be waiting in the write queue when the next response arrives
+            defer = [rng.random() < 0.4 for _ in rounds]
+            cases.append({"kind": "commit", "scheds": scheds, "target": target, "rounds": rounds, "receive": receive, "defer": defer})
         return cases
 
     # ---- implementation -----------------------------------------------------------------
@@ -125,7 +141,7 @@ class C18(Prop):
         payload = self._payload(c)
         rounds = [[(d, STATES[st], tstr(*s), tstr(*e)) for d, st, s, e in edits] for edits in c["rounds"]]
         try:
-            return vloop.run(_commit_path, payload, c["scheds"][c["target"]]["index"], rounds, c.get("receive"))
+            return vloop.run(_commit_path, payload, c["scheds"][c["target"]]["index"], rounds, c.get("receive"), c.get("defer"))
         except Exception as ex:  # noqa: BLE001
             return {"error": type(ex).__name__}
 
